@@ -69,7 +69,7 @@ def scratch():
     global _SCRATCH  # pylint: disable=global-statement
     if _SCRATCH is None:
         base = os.environ.get("VERIF_SCRATCH") or ("/dev/shm" if os.path.isdir("/dev/shm") else None)
-        _SCRATCH = tempfile.mkdtemp(prefix="verif-", dir=base)
+        _SCRATCH = os.path.realpath(tempfile.mkdtemp(prefix="verif-", dir=base))   # cond resolves its cwd physically
         atexit.register(lambda: shutil.rmtree(_SCRATCH, ignore_errors=True))
     return _SCRATCH
 
